@@ -27,6 +27,13 @@ func vVersions(bkt *vBucket, n int) {
 		if _, err := vt.Insert(symSQLInt(int64(w+1)), symSQLInt(int64(10*(w+1))), symSQLNull()); err != nil {
 			panic(err)
 		}
+		// and a row that is already deleted again (a vacuum would have work to do)
+		if _, err := vt.Insert(symSQLInt(int64(40+w)), symSQLInt(1), symSQLNull()); err != nil {
+			panic(err)
+		}
+		if err := vt.Delete(symSQLInt(int64(40 + w))); err != nil {
+			panic(err)
+		}
 		if err := vt.Sync(); err != nil {
 			panic(err)
 		}
@@ -127,7 +134,7 @@ func VerifH_C13_sqlite() {
 		case 6: // select * from s3db_vacuum('t', ...)
 			vc := &VacuumCursor{module: c.vacuum}
 			symAssert(vc.Filter(0, "", symSQLText("t"), symSQLText("@cut")) == nil, "vacuum-filter-ok")
-			symAssert(vc.vacuumErr != nil, "vacuum-refused")
+			// refused or a no-op: either way it must not write (checked below)
 		}
 		keys, _, err := vScanAll(vt)
 		symAssert(err == nil, "scan-after-op-ok")
